@@ -91,23 +91,51 @@ def path_sum(a, b, topological=False):
     return s
 
 
+def pair_table(nodes):
+    """{(a.nid, b.nid): (lca nid, path length, edge count)} for all ordered pairs, by walking up from
+    both nodes to the first shared ancestor and adding the edge lengths met on the way."""
+    out = {}
+    for a in nodes:
+        up_a = path_up(a)
+        pos = {id(x): k for k, x in enumerate(up_a)}
+        for b in nodes:
+            s = 0.0
+            steps = 0
+            x = b
+            while id(x) not in pos:
+                s += float(x.dist)
+                steps += 1
+                x = x.parent
+            k = pos[id(x)]
+            for y in up_a[:k]:
+                s += float(y.dist)
+            out[(a.nid, b.nid)] = (x.nid, s, float(steps + k))
+    return out
+
+
 def clade_map(spec):
     """{(frozenset of leaf indices, k): distance to parent}; k numbers the nodes of a unary chain
     (which all span the same leaf set) from the top.  With distinct leaf indices this identifies every
     node, independent of the order of children."""
-    out = {}
+    items = []          # preorder: (clade, dist), so that chain members are numbered from the top
 
     def rec(s, dist):
-        cl = frozenset(spec_leaves(s))
+        slot = len(items)
+        items.append(None)
+        if isinstance(s, int):
+            cl = frozenset((s,))
+        else:
+            cl = frozenset().union(*[rec(cs, d) for cs, d in s])
+        items[slot] = (cl, dist)
+        return cl
+
+    rec(spec, None)
+    out = {}
+    for cl, dist in items:
         k = 0
         while (cl, k) in out:
             k += 1
         out[(cl, k)] = dist
-        if not isinstance(s, int):
-            for cs, d in s:
-                rec(cs, d)
-
-    rec(spec, None)
     return out
 
 
